@@ -185,7 +185,7 @@ def run_op_safe(pf, op, shared=None):
 
 
 def is_exc(r):
-    return isinstance(r, list) and len(r) == 3 and r[0] == "EXC"
+    return isinstance(r, list) and len(r) == 3 and isinstance(r[0], str) and r[0] == "EXC"
 
 
 # ---------------------------------------------------------------------------------------------
